@@ -18,10 +18,11 @@ atexit.register(shutil.rmtree, _SCRATCH_HOME, True)
 from cherab.core.atomic import elements as E  # noqa: E402
 from cherab.openadas import repository as R  # noqa: E402
 from cherab.openadas.repository import utility as RU  # noqa: E402
+from . import c08 as ADF  # noqa: E402  (independent ADF writers + install helpers; its own HOME redirection is harmless here)
 
 ID = "C06"
 RULE = ("Hypothesis RuleBasedStateMachine over a fresh temporary repository: rules are every add_*/update_* function of "
-        "the 14 rate families (update_* batched over several keys), rejected updates (bad shape / charge > Z / non-Element "
+        "the 14 rate families (update_* batched over several keys), the six install_adf11* front-ends fed by independent ADF11 writers, rejected updates (bad shape / charge > Z / non-Element "
         "species) and reads; a dict keyed by (family, symbol.lower(), charge, ..., lower-cased transition) is the reference "
         "model. After every step the touched keys and one sibling are read back, at the end every model key is read back "
         "bit for bit, never-written keys must raise RuntimeError, the file set must equal the one implied by the model, and "
@@ -30,7 +31,7 @@ RULE = ("Hypothesis RuleBasedStateMachine over a fresh temporary repository: rul
 ASSUMPTIONS = ["ADF11-style families take the table under the key 'rates' (what install.py passes), all others 'rate'",
                "finite float64 values only (no NaN/inf): JSON round trip of NaN is outside the stated property",
                "HOME redirection before import captures every write that ignores repository_path"]
-REQUIRED_LABELS = ["machine:overwrite", "machine:same-file-siblings", "machine:rejected"]
+REQUIRED_LABELS = ["machine:overwrite", "machine:same-file-siblings", "machine:rejected", "machine:w:install11:scd", "machine:w:install11:ccd"]
 
 SPECIES = ["hydrogen", "deuterium", "tritium", "helium", "helium3", "carbon", "neon", "argon"]
 SP = {n: getattr(E, n) for n in SPECIES}
@@ -124,6 +125,17 @@ def _expect(x, kind):
 
 def _bits(a):
     return np.ascontiguousarray(np.asarray(a, dtype=np.float64)).view(np.uint64)
+
+
+ALL_BY_SYMBOL = {}
+for _n in dir(E):
+    _o = getattr(E, _n)
+    if type(_o).__name__ in ("Element", "Isotope"):
+        ALL_BY_SYMBOL[_o.symbol.lower()] = _o
+
+# ADF11 class -> (C06 family, charge offset w.r.t. the block's Z1)
+INSTALL11 = {"scd": ("ionisation", -1), "acd": ("recombination", 0), "ccd": ("thermal_cx", 0),
+             "plt": ("line_power", -1), "prb": ("continuum_power", 0), "prc": ("cx_power", 0)}
 
 
 def _dedupe(entries, py, mk):
@@ -444,6 +456,44 @@ class Repo:
     OPS["beam_emission"] = lambda: st.tuples(st.sampled_from(["add", "update"]),
                                              st.lists(st.tuples(st.integers(0, 2), _sp, st.integers(0, 18), _tr, beam_data()), min_size=1, max_size=3))
 
+    # ---- ADF11 install front-ends (file produced by the independent writer of vf/oracles/adf_writers.py)
+    def do_install11(self, case):
+        cls = case["cls"]
+        fam, off = INSTALL11[cls]
+        el = ADF.EL[case["el"]]
+        d, text = ADF.build_adf11(case)
+        rel = ADF.ADF11[cls][3] % el.symbol.lower()
+        adas = tempfile.mkdtemp(prefix="vf_c06_adas_")
+        try:
+            path = os.path.join(adas, rel)
+            os.makedirs(os.path.dirname(path))
+            with open(path, "w") as f:
+                f.write(text)
+            with self.ctx.cut("install_adf11" + cls):
+                ADF._install_adf11(case, el, rel, adas, self.path)
+        finally:
+            shutil.rmtree(adas, ignore_errors=True)
+        want_ne = ADF._pow10(ADF._vals(d["dens"])) * 1e6
+        want_te = ADF._pow10(ADF._vals(d["temp"]))
+        sym = el.symbol.lower()
+        for b in d["blocks"]:
+            q = b["z1"] + off
+            if fam == "thermal_cx":
+                key, relf = ("thermal_cx", "h", 0, sym, q), "thermal_cx/h/0/%s.json" % sym
+            else:
+                key, relf = (fam, sym, q), F_ADF11[fam][3] % sym
+            # what the install wrote must be the file's numbers (C08's oracle, 1e-12) ...
+            want = {"ne": want_ne, "te": want_te, "rate": ADF._pow10(ADF._vals(b["table"]).T) * 1e-6}
+            with self.ctx.cut("read-after-install"):
+                got = self._read(key)
+            for k, w in want.items():
+                self.ctx.close(got[k], w, "install:" + cls + ":" + k, rtol=1e-12, info="(key %r)" % (key,))
+            # ... and from now on it is ordinary repository content that must persist bit for bit
+            self._store(key, relf, {k: np.array(got[k], dtype=np.float64) for k in want})
+        self.ctx.label("w:install11:" + cls)
+
+    OPS["install11"] = lambda: ADF.adf11_cases().filter(lambda c: c["nd"] * c["nt"] * c["nblk"] <= 400)
+
     # ---- rejected updates: must raise and change nothing
     def pre_reject(self):
         return self.n_writes > 0
@@ -518,7 +568,7 @@ class Repo:
     def _read(self, key):
         fam = key[0]
         p = self.path
-        sp = {s.symbol.lower(): s for s in SP.values()}
+        sp = ALL_BY_SYMBOL
         if fam in F_ADF11:
             return getattr(R, F_ADF11[fam][2])(sp[key[1]], key[2], p)
         if fam == "thermal_cx":
